@@ -76,7 +76,7 @@ static std::string run_seq(int prov, const std::vector<BOp> &ops, SeqStats *ss =
 static std::string case_json(int prov, const std::vector<BOp> &ops) { return "{\"prov\":" + std::to_string(prov) + ",\"ops\":" + bops_json(ops) + ",\"readable\":" + bops_readable(ops) + ",\"trace\":" + jstr(TRACE) + "}"; }
 
 int main(int argc, char **argv) {
-  Args a = parse_args(argc, argv);
+  Args a = parse_args(argc, argv); vo::allow_noctx() = true;
   init_keys(a.thorough());
   cur_case() = [] { return CUR ? case_json(CUR_PROV, *CUR) : std::string("{}"); };
   Stats &st = stats();
